@@ -48,6 +48,7 @@ type clause struct {
 	Sep     string // edit: separator character
 	Result  string // redit: regexp.ReplaceAllString(joined previous storyline), computed by the harness
 	Ast     string // pedit: the pattern Pat written again as a term of Model/Regex.v
+	Hire    []castEntry // cast: a further cast section between script sections
 	Line    string // the rendered clause
 }
 
@@ -134,6 +135,16 @@ func render(c *clause) {
 		c.Line = "edit s" + c.Sep + regexp.QuoteMeta(c.Pat) + c.Sep + c.Repl + c.Sep + g
 	case "redit", "pedit":
 		c.Line = "edit s/" + c.Pat + "/" + c.Repl + "/"
+	case "cast":
+		var ls []string
+		for _, e := range c.Hire {
+			if e.Mul == 0 {
+				ls = append(ls, fmt.Sprintf("%s plays %s", e.Name, e.Role))
+			} else {
+				ls = append(ls, fmt.Sprintf("%s* play %d %ss", e.Name, e.Mul, e.Role))
+			}
+		}
+		c.Line = strings.Join(ls, "\n")
 	}
 }
 
@@ -158,11 +169,13 @@ func errCode(msg string) int64 {
 func runScript(sc *scriptCase) {
 	sc.Preamble = preambleOf(sc.Cast)
 	var lines []string
+	var isCast []bool
 	for i := range sc.Clauses {
 		render(&sc.Clauses[i])
 		lines = append(lines, sc.Clauses[i].Line)
+		isCast = append(isCast, sc.Clauses[i].Kind == "cast")
 	}
-	sc.Res = cmd.VerifC06Script(sc.Preamble, lines)
+	sc.Res = cmd.VerifC06Sections(sc.Preamble, lines, isCast, fullText(sc))
 	if sc.Res.PreambleErr != "" {
 		panic("generator produced a bad preamble: " + sc.Res.PreambleErr + "\n" + sc.Preamble)
 	}
@@ -184,8 +197,18 @@ func runScript(sc *scriptCase) {
 func fullText(sc *scriptCase) string {
 	var b strings.Builder
 	b.WriteString(sc.Preamble)
+	// a "cast" clause closes the script section, is a cast section of its
+	// own, and a new script section follows
 	b.WriteString("script\n")
 	for _, c := range sc.Clauses {
+		if c.Kind == "cast" {
+			b.WriteString("end\ncast\n")
+			for _, l := range strings.Split(c.Line, "\n") {
+				b.WriteString("  " + l + "\n")
+			}
+			b.WriteString("end\nscript\n")
+			continue
+		}
 		b.WriteString("  " + c.Line + "\n")
 	}
 	b.WriteString("end\n")
@@ -332,6 +355,12 @@ func coqClause(c *clause) string {
 			t = "(TEvery " + W(c.Target) + ")"
 		}
 		return fmt.Sprintf("CEntails x%02x %s %s", c.Char[0], t, coqWList(c.Actions))
+	case "cast":
+		var it []string
+		for _, e := range expandCast(c.Hire) {
+			it = append(it, "("+W(e[0])+", "+W(e[1])+")")
+		}
+		return "CCast " + vh.List(it)
 	case "mstart":
 		return fmt.Sprintf("CMoodStart x%02x %s", c.Char[0], W(c.Mood))
 	case "mend":
@@ -468,6 +497,35 @@ func (g *gen) cast() []castEntry {
 		c = append(c, e)
 	}
 	return c
+}
+
+// hire returns 1-2 further cast entries whose names are not in use yet.
+func (g *gen) hire(cast []castEntry) []castEntry {
+	used := map[string]bool{}
+	for _, e := range cast {
+		used[e.Name] = true
+	}
+	var h []castEntry
+	n := 1 + g.rng.Intn(2)
+	for len(h) < n {
+		role := g.pick([]string{"doctor", "nurse", "doctor", "nurse", "idle"})
+		var e castEntry
+		if g.chance(0.6) {
+			e = castEntry{Name: g.pick([]string{"eve", "fay", "gus", "hal"}), Role: role}
+		} else {
+			e = castEntry{Name: g.pick([]string{"k", "m", "q"}), Role: role, Mul: 1 + g.rng.Intn(2)}
+		}
+		if used[e.Name] {
+			continue
+		}
+		used[e.Name] = true
+		h = append(h, e)
+	}
+	return h
+}
+
+func insertClause(cl []clause, pos int, c clause) []clause {
+	return append(cl[:pos], append([]clause{c}, cl[pos:]...)...)
 }
 
 func (g *gen) actions(role string, allowEmpty bool) []string {
@@ -615,12 +673,30 @@ func (g *gen) randomScript(stream string) *scriptCase {
 			}
 		}
 	}
+	if g.chance(0.35) {
+		// a further cast section in the middle of the script: `every <role>`
+		// is used before and after the role gains actors; the clauses already
+		// there only name actors of the first cast, the ones appended may name
+		// anybody
+		h := g.hire(sc.Cast)
+		role := h[0].Role
+		pos := g.rng.Intn(len(cl) + 1)
+		pick := func() string { return scenes[g.rng.Intn(len(scenes)):][:1] }
+		cl = insertClause(cl, pos, clause{Kind: "cast", Hire: h})
+		cl = insertClause(cl, g.rng.Intn(pos+1), clause{Kind: "entails", Char: pick(), Every: true, Target: role, Actions: g.actions(role, false)})
+		cl = insertClause(cl, pos+2+g.rng.Intn(len(cl)-pos-1), clause{Kind: "entails", Char: pick(), Every: true, Target: role, Actions: g.actions(role, false)})
+		full := append(append([]castEntry{}, sc.Cast...), h...)
+		for g.chance(0.6) {
+			cl = append(cl, g.sceneDef(pick(), full, false))
+		}
+		cl = append(cl, clause{Kind: "story", Text: g.storyText(scenes, maxActs, maxCols)})
+	}
 	if g.chance(0.8) {
 		t := g.pick(tempos)
 		d, _ := time.ParseDuration(t)
 		sc.TempoNs = int64(d)
 		pos := g.rng.Intn(len(cl) + 1)
-		cl = append(cl[:pos], append([]clause{{Kind: "tempo", Text: t}}, cl[pos:]...)...)
+		cl = insertClause(cl, pos, clause{Kind: "tempo", Text: t})
 	}
 	sc.Clauses = cl
 	runScript(sc)
@@ -996,7 +1072,7 @@ func main() {
 			scripts = append(scripts, smallScript("single-clause", []string{t}, nil, "1s"))
 		}
 	} else {
-		for i := 0; i < 550; i++ {
+		for i := 0; i < 500; i++ {
 			scripts = append(scripts, smallScript("single-clause", []string{clauseTexts[rng.Intn(len(clauseTexts))]}, nil, g.pick(tempos)))
 		}
 	}
@@ -1023,7 +1099,7 @@ func main() {
 			}
 		}
 	}
-	nsmall := 900
+	nsmall := 750
 	if thorough {
 		nsmall = 40000
 	}
@@ -1073,6 +1149,51 @@ func main() {
 			if j == 0 || g.chance(0.5) {
 				cl = append(cl, g.shapeEdit())
 			}
+		}
+		sc.Clauses = cl
+		runScript(sc)
+		scripts = append(scripts, sc)
+	}
+	// (2c) a cast section between script sections: scenes a and b are defined
+	//      for `every <role>`, the role gains actors, then they (and c) are
+	//      defined again for `every <role>` and for newcomers
+	nlate := 250
+	if thorough {
+		nlate = 10000
+	}
+	for i := 0; i < nlate; i++ {
+		cast, cl := smallDefs()
+		t := g.pick(tempos)
+		d, _ := time.ParseDuration(t)
+		sc := &scriptCase{Stream: "late-cast", Cast: cast, TempoNs: int64(d)}
+		cl = append(cl, clause{Kind: "tempo", Text: t})
+		if g.chance(0.7) {
+			cl = append(cl, clause{Kind: "story", Text: pickAct()})
+		}
+		nh := 1 + rng.Intn(2)
+		for k := 0; k < nh; k++ {
+			full := cast
+			h := g.hire(full)
+			cast = append(append([]castEntry{}, cast...), h...)
+			cl = append(cl, clause{Kind: "cast", Hire: h})
+			nd := 1 + rng.Intn(3)
+			for j := 0; j < nd; j++ {
+				role := g.pick([]string{h[0].Role, "doctor", "nurse"})
+				ch := g.pick([]string{"a", "b", "a", "b", "c"})
+				if g.chance(0.75) {
+					cl = append(cl, clause{Kind: "entails", Char: ch, Every: true, Target: role, Actions: g.actions(role, false)})
+				} else {
+					cl = append(cl, g.sceneDef(ch, cast, false))
+				}
+			}
+			txt := pickAct()
+			if g.chance(0.4) {
+				txt += " " + pickAct()
+			}
+			if g.chance(0.5) {
+				txt = strings.Replace(txt, "b", "c", 1)
+			}
+			cl = append(cl, clause{Kind: "story", Text: txt})
 		}
 		sc.Clauses = cl
 		runScript(sc)
